@@ -286,3 +286,43 @@ def e_case(draw, mode=None, max_len=12, with_namespaces=True, phys=None, delimit
         "tape": draw(st.lists(st.integers(0, 255), max_size=60)),
     }
     return case
+
+
+# ======================================================================= any valid stream
+@st.composite
+def stream_source(draw, max_len=8, delimited=None, min_len=0):
+    """A valid Jelly byte stream description: written by pyjelly (generic) or by the reference encoder."""
+    if draw(st.booleans()):
+        src = draw(e_case(max_len=max_len, delimited=delimited))
+        src["source"] = "E"
+    else:
+        src = draw(generic_write_case(max_len=max_len, mode="gen"))
+        if delimited is not None:
+            src["delimited"] = delimited
+            if not delimited and src["entry"] not in ("stream_frames_gen", "stream_frames_sink"):
+                src["entry"] = "stream_frames_gen"
+        src["source"] = "pyjelly"
+    return src
+
+
+def source_bytes(src):
+    """-> (bytes, delimited, rdflib_ok)."""
+    from vlib import jellyenc
+
+    if src["source"] == "E":
+        out = jellyenc.encode_case(src)
+        return out["bytes"], out["delimited"], src["mode"] == "rdflib"
+    data, delimited = write_generic(src)
+    return data, delimited, False
+
+
+def norm_any(evs):
+    out = []
+    for e in evs:
+        if e and e[0] == "prefix":
+            out.append(["prefix", e[1], list(e[2])])
+        elif e and e[0] == "BAD":
+            out.append(e)
+        else:
+            out.append([list(T.norm(t)) if t[0] != "BAD" else t for t in e])
+    return out
